@@ -1,8 +1,20 @@
-//! writes seed inputs for the coverage-guided IFT target from the repository's fixtures
+//! writes seed inputs for the coverage-guided IFT and COLR targets (from the repository's fixtures / the graph generator)
+use proptest::strategy::{Strategy, ValueTree};
+use proptest::test_runner::{Config, RngAlgorithm, TestRng, TestRunner};
 fn main() {
     let dir = vcore::verif_dir().join("fuzz/corpus/c02_ift");
     std::fs::create_dir_all(&dir).unwrap();
     for (i, s) in vtotal::iftdrive::raw_seeds().iter().enumerate() {
         std::fs::write(dir.join(format!("fixture-{i:03}")), s).unwrap();
+    }
+    let dir = vcore::verif_dir().join("fuzz/corpus/c13_colr");
+    std::fs::create_dir_all(&dir).unwrap();
+    let mut runner = TestRunner::new_with_rng(Config::default(), TestRng::from_seed(RngAlgorithm::ChaCha, &[7u8; 32]));
+    let strat = vtotal::c13::colr_strategy();
+    for i in 0..300 {
+        let c = strat.new_tree(&mut runner).unwrap().current();
+        let mut bytes = vtotal::colrgen::assemble(&c).colr;
+        bytes.extend_from_slice(&[(c.coords.len() as u8) % 3, 0x40, 0, 0, c.script.len() as u8, 1, 0, 2]);
+        std::fs::write(dir.join(format!("generated-{i:03}")), bytes).unwrap();
     }
 }
